@@ -61,6 +61,10 @@ pub enum Edit {
     NearNamePair { line: usize, how: String },
     /// generated project: the block whose header is at `line` appears twice (repeated write)
     BlockDuplicated { line: usize },
+    /// generated project: a copy of the block at `line` pasted as the first child of ANOTHER
+    /// parent (a wall into the next space, a window into the next wall, a space into the next
+    /// floor): the same name now exists under two parents
+    BlockPastedElsewhere { line: usize },
     /// generated project: every attribute of the block at `line` whose value is the number 0
     /// gets `value` (dormant features - fins, overhangs, setbacks, offsets - switched on, all
     /// with the same size)
@@ -98,6 +102,7 @@ impl Edit {
             Edit::NearNamePair { .. } => "proj.near_identical_names",
             Edit::BlockDuplicated { .. } => "disk.block_duplicated",
             Edit::ZerosOn { .. } => "proj.zeros_on",
+            Edit::BlockPastedElsewhere { .. } => "proj.block_pasted_elsewhere",
             Edit::DefRenamed { .. } => "disk.def_renamed",
             Edit::DefRemoved { .. } => "disk.def_removed",
             Edit::RefRenamed { .. } => "disk.ref_renamed",
@@ -127,6 +132,7 @@ impl Edit {
             | Edit::NearNamePair { line, .. }
             | Edit::BlockDuplicated { line }
             | Edit::ZerosOn { line, .. }
+            | Edit::BlockPastedElsewhere { line }
             | Edit::DefRenamed { line }
             | Edit::DefRemoved { line }
             | Edit::RefRenamed { line, .. } => Some(*line),
@@ -153,6 +159,11 @@ pub struct Block {
     pub end: usize,
     pub name: String,
     pub btype: String,
+}
+
+/// Name of the block a header line opens (None for any other line).
+pub fn header_name(line: &str) -> Option<String> {
+    header_of(line).map(|(n, _)| n)
 }
 
 fn header_of(line: &str) -> Option<(String, String)> {
@@ -690,6 +701,34 @@ pub fn apply(text: &str, e: &Edit) -> Option<String> {
             v.extend_from_slice(&lines[end + 1..]);
             Some(join(&v))
         }
+        Edit::BlockPastedElsewhere { line } => {
+            get(*line)?;
+            let blocks = scan_blocks(&lines);
+            let me = blocks.iter().find(|b| b.start == *line)?;
+            let walls = ["EXTERIOR-WALL", "INTERIOR-WALL", "UNDERGROUND-WALL", "ROOF"];
+            let is_parent = |t: &str| -> bool {
+                if walls.contains(&me.btype.as_str()) {
+                    t == "SPACE"
+                } else if me.btype == "WINDOW" {
+                    walls.contains(&t)
+                } else if me.btype == "SPACE" {
+                    t == "FLOOR"
+                } else {
+                    false
+                }
+            };
+            let parents: Vec<&Block> = blocks.iter().filter(|b| is_parent(&b.btype)).collect();
+            let own = parents.iter().filter(|p| p.start < me.start).last().map(|p| p.start);
+            let target = parents.iter().find(|p| p.start > me.start).or_else(|| parents.iter().find(|p| Some(p.start) != own))?;
+            if Some(target.start) == own {
+                return None;
+            }
+            let copy: Vec<&str> = lines[me.start..=me.end].to_vec();
+            let mut v: Vec<&str> = lines[..=target.end].to_vec();
+            v.extend(copy);
+            v.extend_from_slice(&lines[target.end + 1..]);
+            Some(join(&v))
+        }
         Edit::ZerosOn { line, value } => {
             get(*line)?;
             header_of(lines[*line])?;
@@ -914,7 +953,10 @@ pub fn enumerate_c19(file: &CorpusFile, thorough: bool) -> Vec<Variant> {
     }
     for (i, l) in lines.iter().enumerate() {
         let li = &info[i];
-        let cellbase = format!("{}|{}|{}{}", fk, li.region, li.key, if non_ascii_block[i] { "|non-ascii block" } else { "" });
+        // the lines that open or close a CDATA section delimit the embedded BDL / GT texts: every
+        // file gets its own cells for them, so that even the quick tier damages each of them
+        let boundary = if file.kind == FileKind::Ctehexml && (l.contains("<![CDATA[") || l.contains("]]>")) { format!("|section boundary|{}", file.rel) } else { String::new() };
+        let cellbase = format!("{}|{}|{}{}{}", fk, li.region, li.key, if non_ascii_block[i] { "|non-ascii block" } else { "" }, boundary);
         let blank = l.trim().is_empty();
         let mut push = |e: Edit| {
             let cell = match &e {
